@@ -234,10 +234,12 @@ func (o *Obs) obs(sb *strings.Builder, v reflect.Value) {
 		}
 		p := v.Pointer()
 		sz := t.Elem().Size()
+		id := 0 // zero-size targets have no identity
 		if sz > 0 {
 			o.Ranges = append(o.Ranges, Range{p, p + sz, o.side, "ptr"})
+			id = o.id(p)
 		}
-		fmt.Fprintf(sb, "(p %d ", o.id(p))
+		fmt.Fprintf(sb, "(p %d ", id)
 		o.obs(sb, v.Elem())
 		sb.WriteString(")")
 	case reflect.Slice:
@@ -339,3 +341,15 @@ func Bool(b bool) string {
 func Int(n int) string { return strconv.Itoa(n) }
 
 func U64(n uint64) string { return strconv.FormatUint(n, 10) }
+
+func b01(b bool) string {
+	if b {
+		return "1"
+	}
+	return "0"
+}
+
+// CopyAnswer formats the outcome of a deepcopy / clone op.
+func CopyAnswer(dst string, eq, alias, srcSame bool) string {
+	return strings.ReplaceAll(dst, " ", ",") + ";eq=" + b01(eq) + ";alias=" + b01(alias) + ";src=" + b01(srcSame)
+}
